@@ -183,8 +183,9 @@ func createCompiledRouteHandler(route *ast.Route, bytecode []byte, wsHub *websoc
 			}
 		}
 
-		// Parse and inject request body as 'input' for POST/PUT/PATCH requests
-		if ctx.Request.Method == "POST" || ctx.Request.Method == "PUT" || ctx.Request.Method == "PATCH" {
+		// Parse and inject request body as 'input' for POST/PUT/PATCH/DELETE requests
+		// (the same methods as the interpreter path in executeRoute)
+		if ctx.Request.Method == "POST" || ctx.Request.Method == "PUT" || ctx.Request.Method == "PATCH" || ctx.Request.Method == "DELETE" {
 			contentType := ctx.Request.Header.Get("Content-Type")
 			shouldParseJSON := contentType == "" ||
 				contentType == "application/json" ||
